@@ -536,9 +536,13 @@ func (ufs *Ufs) Create(req *SrvReq) {
 	}
 
 	/* a symbolic link is not opened: that would follow it, and fail for a
-	 * target that does not exist (yet) after the link was made */
+	 * target that does not exist (yet) after the link was made. The same
+	 * goes for a hard link that gives a symbolic link a second name */
 	if file == nil && e == nil && tc.Perm&DMSYMLINK == 0 {
-		file, e = os.OpenFile(path, omode2uflags(tc.Mode), 0)
+		st, le := os.Lstat(path)
+		if le != nil || st.Mode()&os.ModeSymlink == 0 {
+			file, e = os.OpenFile(path, omode2uflags(tc.Mode), 0)
+		}
 	}
 
 	if e != nil {
